@@ -116,6 +116,25 @@ func (s SessionStoreImpl[T]) GetAndDelete(key string, target interface{}) error 
 	return s.underlying.Delete(context.Background(), s.db.getFullKey(s.prefixes, key))
 }
 
+func (s SessionStoreImpl[T]) PutIfAbsent(key string, value interface{}, options ...SessionOption) (bool, error) {
+	// Get and Put are separate calls to the underlying store:
+	// without the lock, concurrent callers could all find the key absent before any of them stores it.
+	s.mutex.Lock()
+	defer s.mutex.Unlock()
+	var existing json.RawMessage
+	err := s.Get(key, &existing)
+	if err == nil {
+		return false, nil
+	}
+	if !errors.Is(err, ErrNotFound) {
+		return false, err
+	}
+	if err := s.Put(key, value, options...); err != nil {
+		return false, err
+	}
+	return true, nil
+}
+
 func (s SessionStoreImpl[T]) defaultOptions() sessionOptions {
 	return sessionOptions{
 		ttl: s.ttl,
